@@ -51,6 +51,7 @@ pub fn exhaustive(fmt: &str, maxlen: usize, out: &mut Vec<String>) {
                     continue;
                 }
                 let c = Case {
+                kind: "R".to_string(),
                     fmt: fmt.to_string(),
                     cap,
                     pol: PolDesc::Std,
@@ -250,6 +251,7 @@ pub fn random_next(fmt: &str, rng: &mut Rng, n: usize, out: &mut Vec<String>) {
         let input = rand_input(fmt, rng, 40);
         let (script, chunk) = rand_script(rng, true);
         let c = Case {
+                kind: "R".to_string(),
             fmt: fmt.to_string(),
             cap: rand_cap(rng, input.len()),
             pol: wf_policy(rng),
@@ -344,6 +346,7 @@ pub fn histories(fmt: &str, rng: &mut Rng, n: usize, with_seek: bool, mutate_pct
             ops.push(Op::Next);
         }
         let c = Case {
+                kind: "R".to_string(),
             fmt: fmt.to_string(),
             cap: rand_cap(rng, input.len()),
             pol: wf_policy(rng),
@@ -397,6 +400,7 @@ pub fn faulty(fmt: &str, rng: &mut Rng, n: usize, out: &mut Vec<String>) {
             ops.push(Op::Next);
         }
         let c = Case {
+                kind: "R".to_string(),
             fmt: fmt.to_string(),
             cap: rand_cap(rng, input.len()),
             pol,
@@ -423,6 +427,7 @@ pub fn fault_sweep(fmt: &str, rng: &mut Rng, n_inputs: usize, out: &mut Vec<Stri
                 .collect();
             script.push(ReadEv::Fail(rng.below(KINDS.len())));
             let c = Case {
+                kind: "R".to_string(),
                 fmt: fmt.to_string(),
                 cap,
                 pol: PolDesc::Std,
@@ -456,6 +461,11 @@ pub fn generate(family: &str, size: usize, seed: u64) -> Vec<String> {
         "w_fa" => writer_cases("fa", &mut rng, if size >= 100000 { 8 } else { 6 }, size, &mut out),
         "w_fq" => writer_cases("fq", &mut rng, 0, size, &mut out),
         "par_x" => par_x(&mut rng, size, &mut out),
+        "iter" => iter_cases(size, &mut out),
+        "fa_json" => json_cases("fa", &mut rng, size, &mut out),
+        "fq_json" => json_cases("fq", &mut rng, size, &mut out),
+        "fa_alloc" => alloc_cases("fa", &mut rng, size, &mut out),
+        "fq_alloc" => alloc_cases("fq", &mut rng, size, &mut out),
         "fa_cfg" => config_lattice("fa", &mut rng, size, &mut out),
         "fq_cfg" => config_lattice("fq", &mut rng, size, &mut out),
         "fa_recode" => recode_groups("fa", &mut rng, size, &mut out),
@@ -719,7 +729,7 @@ pub fn config_lattice(fmt: &str, rng: &mut Rng, n_inputs: usize, out: &mut Vec<S
             (rng.range(3, len + 2), PolDesc::Table((0..3).map(|_| rng.range(1, 7)).collect()), *rng.pick(&[0usize, 3, 7]), vec![]),
         ];
         for (cap, pol, chunk, script) in cfgs {
-            let c = Case { fmt: fmt.to_string(), cap, pol, chunk, script, seek_fails: vec![], input: input.clone(), ops: ops.clone() };
+            let c = Case { kind: "R".to_string(), fmt: fmt.to_string(), cap, pol, chunk, script, seek_fails: vec![], input: input.clone(), ops: ops.clone() };
             out.push(c.show());
         }
     }
@@ -823,6 +833,7 @@ pub fn recode_groups(fmt: &str, rng: &mut Rng, n_files: usize, out: &mut Vec<Str
                 }
             }
             let c = Case {
+                kind: "R".to_string(),
                 fmt: fmt.to_string(),
                 cap: rand_cap(rng, f.len()),
                 pol: PolDesc::Std,
@@ -833,6 +844,132 @@ pub fn recode_groups(fmt: &str, rng: &mut Rng, n_files: usize, out: &mut Vec<Str
                 input: f,
             };
             out.push(c.show());
+        }
+    }
+}
+
+// ---------------------------------------------------------------- serialisation (C19) and allocation (C18) cases
+
+pub fn json_cases(fmt: &str, rng: &mut Rng, n: usize, out: &mut Vec<String>) {
+    for _ in 0..n {
+        let input = rand_input(fmt, rng, 15);
+        let mut ops = vec![];
+        for _ in 0..rng.range(2, 8) {
+            match rng.below(6) {
+                0 | 1 => {
+                    let j = rng.below(2);
+                    ops.push(Op::Set(j));
+                    ops.push(Op::Json(j));
+                }
+                2 | 3 => {
+                    let j = rng.below(2);
+                    ops.push(Op::Exact(j, rng.range(1, 4)));
+                    ops.push(Op::Json(j));
+                }
+                4 => ops.push(Op::OwnedJson),
+                _ => ops.push(Op::Next),
+            }
+        }
+        ops.push(Op::Json(0));
+        ops.push(Op::Json(1));
+        let c = Case {
+            kind: "R".to_string(),
+            fmt: fmt.to_string(),
+            cap: rand_cap(rng, input.len()),
+            pol: PolDesc::Std,
+            chunk: 0,
+            script: vec![],
+            seek_fails: vec![],
+            ops,
+            input,
+        };
+        out.push(c.show());
+    }
+}
+
+pub fn alloc_cases(fmt: &str, rng: &mut Rng, n: usize, out: &mut Vec<String>) {
+    for _ in 0..n {
+        // uniform records: same shape throughout, so that "no larger than already seen" holds after warm-up
+        let nrec = rng.range(12, 40);
+        let hl = rng.range(1, 8);
+        let sl = rng.range(1, 30);
+        let nl = rng.range(1, 4);
+        let crlf = rng.chance(1, 3);
+        let t: &[u8] = if crlf { b"\r\n" } else { b"\n" };
+        let mut f = vec![];
+        for _ in 0..nrec {
+            if fmt == "fa" {
+                f.push(b'>');
+                f.extend(rand_bytes(rng, hl, b"abcdef"));
+                f.extend_from_slice(t);
+                for _ in 0..nl {
+                    f.extend(rand_bytes(rng, sl, b"ACGT"));
+                    f.extend_from_slice(t);
+                }
+            } else {
+                f.push(b'@');
+                f.extend(rand_bytes(rng, hl, b"abcdef"));
+                f.extend_from_slice(t);
+                f.extend(rand_bytes(rng, sl, b"ACGT"));
+                f.extend_from_slice(t);
+                f.push(b'+');
+                f.extend_from_slice(t);
+                f.extend(rand_bytes(rng, sl, b"IJK"));
+                f.extend_from_slice(t);
+            }
+        }
+        let rec_size = f.len() / nrec;
+        let cap = *rng.pick(&[rec_size * 3 + 7, rec_size * 5 + 1, 1024, 4096, 65536]);
+        let mut ops = vec![];
+        match rng.below(3) {
+            0 => {
+                for _ in 0..nrec + 2 {
+                    ops.push(Op::Next);
+                }
+            }
+            1 => {
+                for _ in 0..nrec {
+                    ops.push(Op::Set(0));
+                }
+            }
+            _ => {
+                for i in 0..nrec {
+                    ops.push(Op::Set(i % 2));
+                }
+            }
+        }
+        let c = Case {
+            kind: "A".to_string(),
+            fmt: fmt.to_string(),
+            cap: cap.max(3),
+            pol: PolDesc::Std,
+            chunk: *rng.pick(&[0usize, 0, 7]),
+            script: vec![],
+            seek_fails: vec![],
+            ops,
+            input: f,
+        };
+        out.push(c.show());
+    }
+}
+
+// ---------------------------------------------------------------- iterator step words (C20)
+
+pub fn iter_cases(maxlen: usize, out: &mut Vec<String>) {
+    for n in 0..=5usize {
+        let mut words = vec![String::new()];
+        let mut level = vec![String::new()];
+        for _ in 0..maxlen {
+            let mut next = vec![];
+            for w in &level {
+                next.push(format!("{}f", w));
+                next.push(format!("{}b", w));
+            }
+            words.extend(next.iter().cloned());
+            level = next;
+        }
+        for w in words {
+            out.push(format!("I {} {}", n, if w.is_empty() { "-".to_string() } else { w }));
         }
     }
 }
